@@ -58,6 +58,11 @@ def vacuous_quantifier(ctx, modules, rule="LINT-b"):
         const_truthy = isinstance(elt, ast.Lambda) or \
           (isinstance(elt, ast.Constant) and bool(elt.value) and not isinstance(elt.value, bool)) or \
           isinstance(elt, (ast.Tuple, ast.List)) and len(elt.elts) > 0
+        in_validator = scope.split(".")[-1] in ("validate", "__post_init__")
+        if in_validator and node.func.id == "any" and elt is not None and "isinstance" in unparse(elt):
+          ctx.bad(rule, key, ctx.where(m, node),
+                  "a validator accepts the value as soon as ONE item has an admissible type (any); every item must be checked (all)")
+          continue
         if const_truthy:
           ctx.bad(rule, key, ctx.where(m, node),
                   f"{node.func.id}() over elements that are always truthy ({type(elt).__name__}): the predicate is never evaluated, "
